@@ -88,6 +88,9 @@ def scan_sources(u):
                 bt = (base.dtype or base.type or '') if base is not None else ''
                 if 'stat' in bt:
                     ok = fname == 'timestamp_macro' and n.name in STAT_TIME_FIELDS
+                    # the existence probe may tell a file from a directory: the file TYPE is part of "which files exist" (the input), unlike times,
+                    # inode numbers, owners or sizes
+                    ok = ok or (fname == 'file_exists' and n.name == 'st_mode')
                     if not ok:
                         yield (fname, 'reads-stat-%s' % n.name, n,
                                'file metadata field %s is read in %s: only timestamp_macro may read the modification time (for __TIMESTAMP__)' % (n.name, fname))
